@@ -61,7 +61,9 @@ def _reg(pid, run, theorems=(), translator=("T1",), rule="", level_text="", leve
 
 
 _reg("C01", c01.run, translator=("T1", "T2", "T3"),
-     theorems=["NirVerif.C01.edges_roundtrip", "NirVerif.C01.transport", "NirVerif.C01.nothing_added", "NirVerif.C01.type_tag"],
+     theorems=["NirVerif.C01.edges_roundtrip", "NirVerif.C01.transport", "NirVerif.C01.nothing_added", "NirVerif.C01.type_tag",
+               "NirVerif.C01.leaf_end_to_end", "NirVerif.C01.leaf_native_roundtrip", "NirVerif.C01.backVal_array",
+               "NirVerif.C01.backVal_npscalar", "NirVerif.C01.backVal_int"],
      rule="Random graphs over all 17 primitives + nested graphs (depth <= 3), 0-8 nodes, arbitrary names (ASCII, Latin-1, "
           "CJK, emoji, whitespace, dots, reserved words, '/', NUL), arbitrary edge multisets (cyclic, self-loops, parallel, "
           "dangling, dotted), 16 dtypes, every hyper-parameter container form, metadata trees; str / pathlib.Path / "
@@ -70,9 +72,15 @@ _reg("C01", c01.run, translator=("T1", "T2", "T3"),
      level_text="Kernel-checked transport through the file form: every leaf value of the dictionary form, at any path and "
                 "nesting depth, is found at the same path in the dictionary the reader hands to the constructors (nothing "
                 "lost or renamed), no key is added, the type tag selects the same class, and the edge list comes back "
-                "exactly, in order, with duplicates, self-loops, dotted and non-ASCII endpoints. The final step - that the "
-                "constructors re-run on the transported values give an equivalent node - is covered per primitive by "
-                "C05/C19 and for whole graphs by the correspondence run and the oracle; it is not one end-to-end theorem.",
+                "exactly, in order, with duplicates, self-loops, dotted and non-ASCII endpoints. End to end for a single "
+                "leaf primitive with the generic dictionary form (leaf_end_to_end): whenever write succeeds, read of the "
+                "file IS the class constructor applied to the transported field values (each value as create_dataset "
+                "stores it and item[()] returns it), whatever order the file lists the members in, the empty metadata "
+                "re-defaulted; for file-native values (arrays, little-endian numpy scalars - every node that itself came "
+                "from a file) that is the constructor on the node's own field values (leaf_native_roundtrip), i.e. read o "
+                "write agrees with the dictionary round trip of C13. PARTIAL: for whole graphs (children re-ordered by link "
+                "name, nested groups, Input/Output/Flatten's class-specific from_dict) the final step is covered by the "
+                "correspondence run and the oracle's strict two-sided comparator, not by one theorem.",
      level_note="Lean kernel; hand-written models of to_dict/from_dict/write/read and of the h5py contract (create_dataset conversions, item[()], link names, iteration order), validated against the real library and real files on every run.")
 _reg("C02", c02.run,
      theorems=["NirVerif.C02.array_bits", "NirVerif.C02.scalar_bits", "NirVerif.C02.param_roundtrip", "NirVerif.C02.toDict_field"],
